@@ -5989,7 +5989,7 @@ static unsigned read_port(CSimulatorObject* self, unsigned port) {
                             unsigned counter = REG(acc->counter);
                             int delta = (int)(next_edge - TIME);
                             unsigned d1 = delta / acc->loop_time + 1;
-                            unsigned d2 = acc->inc ? 255 - counter : counter - 1;
+                            unsigned d2 = acc->inc ? 255 - counter : (counter ? counter - 1 : 0);
                             loops = d1 < d2 ? d1 : d2;
                             if (loops) {
                                 byte* values = acc->inc ? INC[0][counter + loops - 1] : DEC[0][counter - loops + 1];
